@@ -1241,7 +1241,16 @@ class Executor:
             else: idxs = [(o[1] if o[0] == 'int' else None) for _, o in mop[1]]
             out = []
             for i in idxs:
-                if i is None: out.append(s.undef_value(ins.ty.el, 'shufundef'))
+                if i is None:
+                    u = s.undef_value(ins.ty.el, 'shufundef')
+                    if mty.n > n and not isinstance(ins.ty.el, IntT) or (isinstance(ins.ty.el, IntT) and ins.ty.el.n > 1 and mty.n > n):
+                        # widening cast (_mm256_castsi128_si256 & co.): the new lanes are undefined.  A result that depends on them cannot be
+                        # proved; such an obligation is re-proved with the lanes zero (what VEX-encoded 128-bit producers leave there) and
+                        # reported as UB-NOTE, never silently assumed
+                        uv = u._bits if isinstance(u, F) else u
+                        s.ubvals.append((uv, [z3.BitVecVal(0, uv.size())]))
+                        s.ub_note(st, True, 'undefined upper lanes of a 128->256/512-bit widening cast')
+                    out.append(u)
                 elif i < n: out.append(a[i])
                 else: out.append(b[i - n])
             R[ins.res] = out
